@@ -159,6 +159,11 @@ func NewStack(kind string, capacity int) stackage.Stack {
 	if capacity != 0 {
 		c = []int{capacity}
 	}
+	return NewStackArgs(kind, c...)
+}
+
+// NewStackArgs creates a stack of the named kind with the literal constructor arguments.
+func NewStackArgs(kind string, c ...int) stackage.Stack {
 	switch kind {
 	case "AND":
 		return stackage.And(c...)
